@@ -85,4 +85,17 @@ let () = serve (fun fn req ->
           ("contacted", of_nlist st.f_contacted); ("running", of_nlist st.f_running);
           ("active", of_list (fun p -> of_n p.pid) st.f_active);
           ("total_pages", of_nat (total_pages st)); ("on", of_bool st.f_on)]
+  | "producer" ->
+    (* good: true/false/null; udp: n or null *)
+    let good = (match jfield req "good" with JBool b -> Some b | _ -> None) in
+    let udp = (match jfield req "udp" with JNull -> None | j -> Some (jn j)) in
+    (match producer_action (jbool (jfield req "is_self")) good udp (jn (jfield req "tcp")) with
+     | ASkip -> JArr [JStr "skip"] | APut -> JArr [JStr "put"] | APing u -> JArr [JStr "ping"; of_n u])
+  | "guess_udp" -> of_n (guess_udp (jn (jfield req "tcp")))
+  | "reply_size" ->
+    let contacts = (match jfield req "contacts" with JNull -> None
+      | j -> Some (SL.map (fun c -> match jlist c with [l; p] -> (jnat l, jn p) | _ -> raise (Model_error "contact")) (jlist j))) in
+    let compacts = (match jfield req "compacts" with JNull -> None | j -> Some (jnat j)) in
+    JObj [("size", of_nat (find_value_reply_size contacts compacts (jn (jfield req "pages"))));
+          ("limit", of_nat mSG_SIZE_LIMIT)]
   | _ -> raise (Model_error ("unknown fn " ^ fn)))
